@@ -464,6 +464,12 @@ def do_step(op, rng, pytrs, kept, ctx, case):
                     kw[name] = rng.choice(vals)
             if plss:
                 kw['parse_qq'] = True
+                for name, vals in (('layout', ['copy_all', 'TRS_desc']),
+                                   ('segment', [True]),
+                                   ('sec_colon_required', [True]),
+                                   ('default_ns', ['s'])):
+                    if rng.random() < 0.25:
+                        kw[name] = rng.choice(vals)
             obj.parse(**kw)
             fresh = make()
             fresh.parse(**kw)
